@@ -175,4 +175,23 @@ PROPS = {
         "trusted_base": ["hand transcription (trace replay each run)", "fake Database keeps the outbox page it was given"],
         "assumptions": ["the Database returns from GetOutbox what SetOutbox last stored (history theorem)"],
     },
+    "C06": {
+        "level": "proof",
+        "lean_modules": ["AV.Lemmas.Frame", "AV.Props.C06"],
+        "support_modules": ["AV.Spec.C06", "AV.Lemmas.Frame", "AV.Lemmas.LockRules", "AV.Pub.Util", "AV.Pub.SideEffect", "AV.Pub.FedCallbacks", "AV.Pub.BaseActor"],
+        "theorems": [
+            "AV.Props.C06.postInbox_blocked", "AV.Props.C06.authorize_blocked",
+            "AV.Props.C06.mustHave_pure", "AV.Props.C06.mustHave_spec", "AV.Props.C06.fedUpdate_guard", "AV.Props.C06.fedDelete_guard",
+            "AV.Props.C06.findMe_true", "AV.Props.C06.verifyTail_ret", "AV.Props.C06.acceptFollow_safe", "AV.Props.C06.fedAccept_safe",
+            "AV.Props.C06.undoTail_ret", "AV.Props.C06.undoLoop_safe", "AV.Props.C06.fedUndo_safe",
+            "AV.SafeP.frame",
+        ],
+        "translator_scope": [r"gen_lean", r"T2 failed"],
+        "runners": [{"args": ["pub-C06", "1200", "4", "authority,authority,inbox,authority,gate"], "timeout": 1500}],
+        "exhaustive": {"quick": False, "thorough": False},
+        "rule": "inbox POSTs: Update/Delete whose activity id and 1..3 object ids (IRIs or embedded) draw hosts from {equal, other port, other case, sub-domain, other domain}; Accepts of a Follow given embedded / by IRI / of another actor / not a Follow, against a store where the Follow is present, absent (error or nil), of another type, has another actor, lacks the accepting actor, or has several actors/objects; Undos of 1..2 fetched activities whose actor sets are random subsets of a pool of 3 against 1..3 Undo actors; every handled type with 1..3 actors each IRI or embedded and a random blocked id; single faults. "
+                "non-trivial = the block check was reached; distinct by scenario hash",
+        "trusted_base": ["hand transcription (trace replay each run)", "the spec predicates (originSpec, storedFollowOk, undoOk, actorIdsOf) are the ones the theorems are stated with, evaluated by the driver on the real traces"],
+        "assumptions": ["hosts are compared as Go's url.URL.Host strings (no case or port normalisation) — the property's 'same host' is read that way"],
+    },
 }
